@@ -251,10 +251,11 @@ func runC08(c *Ctx) {
 	c.cur = c.Prop + "-R7"
 	checkReaderDoneWakesWaiters(c)
 
-	c.rule("R8", "the retry loop runs under the caller's own context: attempts and dials get the context the caller passed, not one with a deadline added on the way (with an added deadline the retry that follows a dead reused connection is already out of time)", 6)
+	c.rule("R8", "the retry loop runs under the caller's own context: attempts and dials get the context the caller passed, not one with a deadline added on the way (with an added deadline the retry that follows a dead reused connection is already out of time); each attempt arms a deadline of its own", 7)
 	checkCallerCtxPassedOn(c, p.funcsIn(relTransport))
 	checkCtxCallsGetCallerCtx(c, p.funcsIn(relTransport))
 	checkDoneCaseReportsOwnCtx(c, p.funcsIn(relTransport, relUpstream))
+	checkAttemptDeadlineFresh(c)
 
 	c.rule("R4", "dead connections leave the pools when detected / when they close", 4)
 	if g := c.fn(relTransport, "PipelineTransport", "getReservedExchanger"); g != nil {
